@@ -440,11 +440,12 @@ def oracle_conc(w, out):
                 published.append(pending_pub)
             pending_pub = None
         elif k == "ci":
-            if pending_pub is None:
-                return "ring written outside an accepted write: " + ev
+            pass                           # where the bytes are copied is the implementation's business
         elif k == "lw":
             ri += 1
-            if ri >= len(rops) or pending_rel is not None:
+            if pending_rel is not None:
+                return "read %d never stored the read index" % (ri - 1)
+            if ri >= len(rops):
                 return "unexpected reader access " + ev
             c = rops[ri]
             if c == "h":
@@ -470,13 +471,13 @@ def oracle_conc(w, out):
                 return "reader op %d (%s) with %d messages published when it looked: a FIFO gives %s, implementation %s" % (
                     ri, c, len(published), exp, routs[ri])
         elif k == "sr":
-            if pending_rel is None:
+            if ri < 0 or rops[ri] != "r":
                 return "read index stored outside a read: " + ev
-            rel_bytes += pending_rel
-            pending_rel = None
+            if pending_rel is not None:    # the first store of the read index releases the space
+                rel_bytes += pending_rel
+                pending_rel = None
         elif k in ("fr", "co"):
-            if ri < 0 or rops[ri] not in "rl":
-                return "ring read outside a read: " + ev
+            pass
         else:
             return "unknown trace event " + ev
     if pending_pub is not None or pending_rel is not None:
